@@ -234,6 +234,8 @@ class Interp:
             return v[1][f] if f < len(v[1]) else U("field%d" % f)
         if k == "u":
             return U("%s.%d" % (v[1], f))
+        if k == "clo" and isinstance(f, int) and f < len(v[2]):
+            return v[2][f]              # captured value number f of a closure
         return ("pj", v, f)
 
     def deref(self, st, v):
